@@ -89,8 +89,17 @@ func (mu *RBMutex) TryRLock() (bool, *RToken) {
 		return true, t
 	}
 	// Optimistic slow path.
+	if verifOn {
+		verifAt(VpRbTryRLock, mu, nil, nil)
+	}
 	if mu.rw.TryRLock() {
+		if verifOn {
+			verifAt(VpRbSlowBias, mu, nil, nil)
+		}
 		if atomic.LoadInt32(&mu.rbias) == 0 && time.Now().After(mu.inhibitUntil) {
+			if verifOn {
+				verifAt(VpRbSlowSet, mu, nil, nil)
+			}
 			atomic.StoreInt32(&mu.rbias, 1)
 		}
 		return true, nil
@@ -108,14 +117,26 @@ func (mu *RBMutex) RLock() *RToken {
 		return t
 	}
 	// Slow path.
+	if verifOn {
+		verifAt(VpRbSlowRLock, mu, nil, nil)
+	}
 	mu.rw.RLock()
+	if verifOn {
+		verifAt(VpRbSlowBias, mu, nil, nil)
+	}
 	if atomic.LoadInt32(&mu.rbias) == 0 && time.Now().After(mu.inhibitUntil) {
+		if verifOn {
+			verifAt(VpRbSlowSet, mu, nil, nil)
+		}
 		atomic.StoreInt32(&mu.rbias, 1)
 	}
 	return nil
 }
 
 func (mu *RBMutex) fastRlock() *RToken {
+	if verifOn {
+		verifAt(VpRbLoadBias, mu, nil, nil)
+	}
 	if atomic.LoadInt32(&mu.rbias) == 1 {
 		t, ok := rtokenPool.Get().(*RToken)
 		if !ok {
@@ -126,14 +147,26 @@ func (mu *RBMutex) fastRlock() *RToken {
 		for i := 0; i < len(mu.rslots); i++ {
 			slot := t.slot + uint32(i)
 			rslot := &mu.rslots[slot&mu.rmask]
+			if verifOn {
+				verifAt(VpRbLoadSlot, mu, nil, nil, int64(slot&mu.rmask))
+			}
 			rslotmu := atomic.LoadInt32(&rslot.mu)
+			if verifOn {
+				verifAt(VpRbCasSlot, mu, nil, nil, int64(slot&mu.rmask))
+			}
 			if atomic.CompareAndSwapInt32(&rslot.mu, rslotmu, rslotmu+1) {
+				if verifOn {
+					verifAt(VpRbRecheck, mu, nil, nil, int64(slot&mu.rmask))
+				}
 				if atomic.LoadInt32(&mu.rbias) == 1 {
 					// Hot path succeeded.
 					t.slot = slot
 					return t
 				}
 				// The mutex is no longer reader biased. Roll back.
+				if verifOn {
+					verifAt(VpRbRollback, mu, nil, nil, int64(slot&mu.rmask))
+				}
 				atomic.AddInt32(&rslot.mu, -1)
 				rtokenPool.Put(t)
 				return nil
@@ -150,8 +183,14 @@ func (mu *RBMutex) fastRlock() *RToken {
 // reading on entry to RUnlock.
 func (mu *RBMutex) RUnlock(t *RToken) {
 	if t == nil {
+		if verifOn {
+			verifAt(VpRbRUnlock, mu, nil, nil, -1)
+		}
 		mu.rw.RUnlock()
 		return
+	}
+	if verifOn {
+		verifAt(VpRbRUnlock, mu, nil, nil, int64(t.slot&mu.rmask))
 	}
 	if atomic.AddInt32(&mu.rslots[t.slot&mu.rmask].mu, -1) < 0 {
 		panic("invalid reader state detected")
@@ -161,13 +200,31 @@ func (mu *RBMutex) RUnlock(t *RToken) {
 
 // TryLock tries to lock m for writing without blocking.
 func (mu *RBMutex) TryLock() bool {
+	if verifOn {
+		verifAt(VpRbTryLock, mu, nil, nil)
+	}
 	if mu.rw.TryLock() {
+		if verifOn {
+			verifAt(VpRbWBias, mu, nil, nil)
+		}
 		if atomic.LoadInt32(&mu.rbias) == 1 {
+			if verifOn {
+				verifAt(VpRbWClear, mu, nil, nil)
+			}
 			atomic.StoreInt32(&mu.rbias, 0)
 			for i := 0; i < len(mu.rslots); i++ {
+				if verifOn {
+					verifAt(VpRbTryScan, mu, nil, nil, int64(i))
+				}
 				if atomic.LoadInt32(&mu.rslots[i].mu) > 0 {
 					// There is a reader. Roll back.
+					if verifOn {
+						verifAt(VpRbTryBack, mu, nil, nil)
+					}
 					atomic.StoreInt32(&mu.rbias, 1)
+					if verifOn {
+						verifAt(VpRbTryUnlock, mu, nil, nil)
+					}
 					mu.rw.Unlock()
 					return false
 				}
@@ -181,13 +238,28 @@ func (mu *RBMutex) TryLock() bool {
 // Lock locks m for writing. If the lock is already locked for
 // reading or writing, Lock blocks until the lock is available.
 func (mu *RBMutex) Lock() {
+	if verifOn {
+		verifAt(VpRbLock, mu, nil, nil)
+	}
 	mu.rw.Lock()
+	if verifOn {
+		verifAt(VpRbWBias, mu, nil, nil)
+	}
 	if atomic.LoadInt32(&mu.rbias) == 1 {
+		if verifOn {
+			verifAt(VpRbWClear, mu, nil, nil)
+		}
 		atomic.StoreInt32(&mu.rbias, 0)
 		start := time.Now()
 		for i := 0; i < len(mu.rslots); i++ {
+			if verifOn {
+				verifAt(VpRbWSpin, mu, nil, nil, int64(i))
+			}
 			for atomic.LoadInt32(&mu.rslots[i].mu) > 0 {
 				runtime.Gosched()
+				if verifOn {
+					verifAt(VpRbWSpin, mu, nil, nil, int64(i))
+				}
 			}
 		}
 		mu.inhibitUntil = time.Now().Add(time.Since(start) * nslowdown)
@@ -201,5 +273,8 @@ func (mu *RBMutex) Lock() {
 // particular goroutine. One goroutine may RLock (Lock) a RBMutex and
 // then arrange for another goroutine to RUnlock (Unlock) it.
 func (mu *RBMutex) Unlock() {
+	if verifOn {
+		verifAt(VpRbUnlock, mu, nil, nil)
+	}
 	mu.rw.Unlock()
 }
